@@ -643,6 +643,9 @@ func (t *Task) verifyFunc(fn *ssa.Function, con *FuncContract) {
 	penv := act.exprEnv(out, vars)
 	// reachability of the exit
 	cv2 := &Obligation{Name: t.curFn + caseSuffix(con) + "#cover[exit]", Kind: "cover", Fn: t.curFn, Pc: out.pc, Goal: tFalse, NAssert: len(t.asserts), task: t, Src: con.Src}
+	if con.hasClause("noexitcover") {
+		t.callCovers = nil // (same reason: the assumed precondition is the recorded finding)
+	}
 	if !con.hasClause("noexitcover") {
 		// (a lemma harness whose only purpose is a call-site precondition that is a recorded finding has no reachable
 		// exit once that precondition is assumed)
